@@ -48,6 +48,11 @@ def skip(expr: Expression, rules: Mapping[str, Rule]) -> Expression:
     # NOTE: The reference implementation only applies "skip" to atomic type rules.
     # As far as I can tell, this is acting like an "early return" as the "ANY" in
     # Rep-NegPred-Any would consume whitespace and comments.
+    if "WHITESPACE" in rules or "COMMENT" in rules:
+        # Outside of atomic rules, implicit whitespace and comments are skipped
+        # between the predicate and ANY, which a substring search does not do.
+        return expr
+
     match expr:
         case Repeat(expression=Group(expression=Sequence(expressions=[left, right]))):
             match (left, right):
